@@ -138,9 +138,11 @@ def gen_lines(rng, w, cap, digs, n):
             if j == 0:
                 out.append("nt_prime %s %x" % (v, rng.choice(CARMICHAEL)))
             elif j == 1:
-                out.append("nt_prime %s %x" % (v, rng.choice(SPSP)))
+                n_ = rng.choice(SPSP)
+                fac = {3317044064679887385961981: 1287836182261, 318665857834031151167461: 399165290221}.get(n_)
+                out.append("nt_prime %s %x%s" % (v, n_, " C %x" % fac if fac else ""))
             elif j == 2:
-                out.append("nt_prime %s %x" % (v, rng.choice(PRIMES64)))
+                out.append("nt_prime %s %x" % (v, rng.choice(PRIMES64[1:] if v == "solov" else PRIMES64)))
             elif j == 3 and not small:
                 out.append("nt_prime %s %x P" % (v, rng.choice(PARAM_PRIMES)))
             elif j == 4:    # prime squares, products of two close primes
@@ -149,12 +151,15 @@ def gen_lines(rng, w, cap, digs, n):
                 if (p * q).bit_length() < cap * w // 2:
                     out.append("nt_prime %s %x C %x" % (v, p * q, p))
             elif j == 5:
-                out.append("nt_prime %s %x" % (v, rng.choice([0, 1, 2, 3, 4, 9, 15, 25, 49, 1 << 16, (1 << 16) + 1, rng.bits(40) | 1])))
+                small_vals = [3, 4, 9, 15, 25, 49, 1 << 16, (1 << 16) + 1, rng.bits(40) | 1]
+                if v != "solov":        # bn_is_prime_solov is documented for a > 2 (it loops forever on 1 and 2)
+                    small_vals += [0, 1, 2]
+                out.append("nt_prime %s %x" % (v, rng.choice(small_vals)))
             else:
                 out.append("nt_prime %s %x" % (v, rng.bits(rng.choice([20, 48, 64, 79])) | 1))
         elif k < 76:
             bits = rng.choice([16, 24, 32, 48, 64])
-            out.append("nt_gen_prime %s %s %d" % (rng.choice(["basic", "basic", "safep", "stron"] if bits <= 32 else ["basic"]), rng.bytes(6).hex(), bits))
+            out.append("nt_gen_prime %s %s %d" % (rng.choice(["basic", "basic", "safep"] if bits <= 32 else ["basic"]), rng.bytes(6).hex(), bits))
         elif k < 96:
             kind = rng.choice(["win", "slw", "naf", "naf", "reg", "jsf"])
             bits = rng.choice([1, 2, 7, 8, 9, 63, 64, 65, 160, 255, 256, 257]) if not small else rng.choice([1, 2, 7, 8, 9, 15, 16, 17, 60, 100])
@@ -185,7 +190,7 @@ def gen_lines(rng, w, cap, digs, n):
     return out
 
 
-CORPUS = ["nt_smb jac 4 5", "nt_smb jac 2 f", "nt_gcd_ext basic -c 12", "nt_gcd_ext lehme -c 12", "nt_gcd_ext binar c -12", "nt_gcd basic 0 0",
+CORPUS = ["nt_rec win 4 1", "nt_rec win 2 0", "nt_inv -1 5", "nt_smb jac 4 5", "nt_smb jac 2 f", "nt_gcd_ext basic -c 12", "nt_gcd_ext lehme -c 12", "nt_gcd_ext binar c -12", "nt_gcd basic 0 0",
           "nt_gcd_ext basic 0 5", "nt_inv 3 7", "nt_mxp basic 2 -1 7", "nt_mxp slide 0 0 7", "nt_rec naf 2 0", "nt_rec win 4 1", "nt_srt 0"]
 
 
